@@ -114,8 +114,21 @@ class BasicAdapter(object):
             return ('exc', H.exc_key(r.exc))
         return r.err
 
+    def clause_of(self, n):
+        """The ACCESS / LOCK clause of number n (one clause for all numbers, or one per number)."""
+        if isinstance(self.clause, tuple):
+            return dict(self.clause)[n]
+        return self.clause
+
+    def excluded(self, n, kind):
+        """Is GET (kind G/g) or PUT (P/p) excluded by the ACCESS clause the number was opened with?"""
+        c = self.clause_of(n)
+        if b'ACCESS READ WRITE' in c or b'ACCESS' not in c:
+            return False
+        return (b'ACCESS WRITE' in c) if kind in 'Gg' else (b'ACCESS READ' in c)
+
     def _open_stmt(self, n):
-        return b'OPEN "%s" FOR RANDOM %sAS %d LEN=%d' % (FNAME, self.clause, n, self.reclen)
+        return b'OPEN "%s" FOR RANDOM %sAS %d LEN=%d' % (FNAME, self.clause_of(n), n, self.reclen)
 
     def reopen(self, n):
         return self._run(self._open_stmt(n))
@@ -145,9 +158,11 @@ class BasicAdapter(object):
 
     def access_next(self, n, rec, kind):
         """Record `rec` reached without a record number: position on rec-1, then GET#n / PUT#n."""
-        res = self._run(b'GET#%d,%d' % (n, rec - 1))
+        # (a number opened for writing only is positioned by a PUT)
+        pos = b'PUT#%d,%d' if self.excluded(n, 'G') else b'GET#%d,%d'
+        res = self._run(pos % (n, rec - 1))
         if res is not None:
-            raise CheckError('positioning GET#%d,%d failed with %r' % (n, rec - 1, res))
+            raise CheckError('positioning %s failed with %r' % (pos % (n, rec - 1), res))
         return self._run(b'GET#%d' % n if kind == 'g' else b'PUT#%d' % n)
 
     def locksets(self):
@@ -381,7 +396,13 @@ def _check_op(real, model, op, viols):
         word = {'G': 'get', 'P': 'put', 'g': 'get-next', 'p': 'put-next'}[kind]
         lockers = sorted(model.locked_by_other(n, rec))
         own = any(overlaps((rec, rec), r) for r in model.held[n])
-        if lockers:
+        if getattr(real, 'excluded', lambda _n, _k: False)(n, kind):
+            # the number was opened without this kind of access: the transfer must fail whatever is locked
+            info = '%s/excluded-by-access/%s' % (kind, 'ACCEPTED' if ok else 'refused')
+            if ok:
+                viols.append(('%s/accepted-without-access' % word,
+                              '%s#%d,%d succeeded although #%d was opened %r' % (word.upper(), n, rec, n, real.clause_of(n))))
+        elif lockers:
             info = '%s/locked-by-other/%s' % (kind, 'ACCESSIBLE' if ok else 'refused')
             if ok:
                 viols.append(('%s/locked-record-accessible/%s' % (
@@ -679,22 +700,33 @@ def work_spelling(shard):
 
 # ---------------------------------------------------------------------------
 
+# two numbers opened with different, compatible clauses: one denies the others one kind of access, the
+# other was opened for the complementary kind only
+MIXED_CFGS = [
+    (('basic', (1, 2), 3, 2, ((1, b'LOCK READ '), (2, b'ACCESS WRITE SHARED ')), 4), 40),
+    (('basic', (1, 2), 3, 2, ((1, b'LOCK WRITE '), (2, b'ACCESS READ SHARED ')), 4), 40),
+    (('basic', (1, 2), 3, 2, ((1, b'SHARED '), (2, b'ACCESS READ SHARED ')), 4), 40),
+]
+
+
 def legs(ctx):
     out = []
     if ctx.quick:
-        cfgs = [(('basic', (1, 2), 5, 2, b'', 4), 40)]
+        cfgs = [(('basic', (1, 2), 5, 2, b'', 4), 40)] + MIXED_CFGS
         dcfgs = [(('direct', (1, 2, 3), 5, 2, b''), 60)]
-        bound_b = '2 numbers, ranges 1<=s<=e<=5 + whole file (16), <=2 held per number, records 1..6'
+        bound_b = ('2 numbers, ranges 1<=s<=e<=5 + whole file (16), <=2 held per number, records 1..6; '
+                   '3 pairs of numbers opened with different compatible ACCESS / LOCK clauses, R=3')
         bound_d = '3 numbers, ranges 1<=s<=e<=5 + whole file (16), <=2 held per number'
     else:
         cfgs = [(('basic', (1, 2, 3), 5, 2, b'', 4), 60),
                 (('basic', (1, 2), 6, 2, b'', 4), 60),
-                (('basic', (1, 2), 5, 2, b'SHARED ', 2), 60)]
+                (('basic', (1, 2), 5, 2, b'SHARED ', 2), 60)] + MIXED_CFGS
         dcfgs = [(('direct', (1, 2, 3), 6, 3, b''), 80),
                  (('direct', (1, 2, 3), 6, 2, b'SHARED'), 80)]
         bound_b = ('3 numbers, ranges 1<=s<=e<=5 + whole file (16), <=2 held per number, records 1..6; '
                    '2 numbers, ranges 1<=s<=e<=6 + whole file (22), <=2 held, records 1..7; '
-                   '2 numbers opened SHARED, R=5')
+                   '2 numbers opened SHARED, R=5; '
+                   '3 pairs of numbers opened with different compatible ACCESS / LOCK clauses, R=3')
         bound_d = '3 numbers, ranges 1<=s<=e<=6 + whole file (22), <=3 held per number; and SHARED, <=2'
     out.append(Leg('locks-bfs', cfgs, work_bfs, exhaustive=True, serial=True,
                    bound='fixed point of the lock-table state space: ' + bound_b))
